@@ -147,6 +147,12 @@ func (r *Run) runHistory(idx int, next func(p *Pool, step int) (Op, bool), onTai
 		}
 		shared := sharedFollower(p, o)
 		c01pre := c01Before(p, o)
+		var oldSender int64 // IfAddSent: the interface that sent the message before the call
+		if o.Name == "IfAddSent" && len(o.A) > 1 {
+			if m := p.msg(o.A[1]); m != nil && m.SenderNodeInterface() != nil {
+				oldSender = int64(p.byIface[m.SenderNodeInterface()])
+			}
+		}
 		deadAttached := renamesNodeOfAttachedDeadInterface(p, o)
 		nBefore := len(p.ents)
 		out, bad := exec(p, o)
@@ -213,6 +219,11 @@ func (r *Run) runHistory(idx int, next func(p *Pool, step int) (Op, bool), onTai
 			r.tainted++
 			if onTaint != nil {
 				onTaint(tn)
+			}
+			if tn == "reattach NodeInterface.AddSentMessage" && o.Name == "IfAddSent" && oldSender != 0 {
+				// the first interface still lists the message as sent: what the finding does not excuse is
+				// still judged — the first interface must be refused as a receiver of the message
+				epilogue = []Op{{Name: "MsgAddReceiver", A: []int64{o.A[1], oldSender}}, {Name: "IfAddReceived", A: []int64{oldSender, o.A[1]}}}
 			}
 			if tn == "removed-interface-used" && o.Name == "BusAddNodeInterface" {
 				// the consequence for the name / id indexes shows when the node is renamed
